@@ -80,6 +80,8 @@ def atom_expr(a, layout):
         return ["op2", "EQ", ["op2", "MOD", w(a[1]), w(a[2])], ["c", a[3]]]
     if k in ("sdivw", "smodw", "expw"):
         return ["op2", "EQ", ["op2", {"sdivw": "SDIV", "smodw": "SMOD", "expw": "EXP"}[k], w(a[1]), w(a[2])], ["c", a[3]]]
+    if k in ("addmodw", "mulmodw"):
+        return ["op2", "EQ", ["op3", "ADDMOD" if k == "addmodw" else "MULMOD", w(a[1]), w(a[2]), w(a[3])], ["c", a[4]]]
     if k == "mix":
         return ["op2", "EQ", ["op2", "XOR", ["op2", "MUL", w(a[1]), ["c", a[2]]], ["op2", "SHR", ["c", 7], w(a[1])]], ["c", a[3]]]
     if k == "st":
@@ -114,6 +116,9 @@ def atom_holds(a, words, lens, data0, store):
     if k in ("sdivw", "smodw", "expw"):
         from vfw.evmref import alu
         return alu({"sdivw": "SDIV", "smodw": "SMOD", "expw": "EXP"}[k], words[a[1]], words[a[2]]) == a[3]
+    if k in ("addmodw", "mulmodw"):
+        x, y, m = words[a[1]], words[a[2]], words[a[3]]
+        return (0 if m == 0 else ((x + y) % m if k == "addmodw" else (x * y) % m)) == a[4]
     if k == "mix":
         return (((words[a[1]] * a[2]) & M256) ^ (words[a[1]] >> 7)) == a[3]
     if k == "st":
@@ -152,6 +157,11 @@ def atom_z3(a, W, L, D, store):
         return z3.If(W[a[2]] == 0, B(0), z3.SRem(W[a[1]], W[a[2]])) == B(a[3])
     if k == "expw":
         return None  # no exact z3 encoding: ground truth comes from the planted witness only
+    if k in ("addmodw", "mulmodw"):
+        n = 257 if k == "addmodw" else 512
+        x, y, m = (z3.ZeroExt(n - 256, W[a[j]]) for j in (1, 2, 3))
+        r = z3.URem(x + y if k == "addmodw" else x * y, m)
+        return z3.If(W[a[3]] == 0, B(0), z3.Extract(255, 0, r)) == B(a[4])
     if k == "mix":
         return ((W[a[1]] * B(a[2])) ^ z3.LShR(W[a[1]], 7)) == B(a[3])
     if k == "st":
@@ -221,7 +231,7 @@ def test_st():
             words[rng.randrange(nwords)] = 0  # zero divisors / zero moduli are witnesses too
         for _ in range(natoms):
             i, j = rng.randrange(nwords), rng.randrange(nwords)
-            form = rng.choice(["eq", "eq", "gt", "lt", "sum", "and", "mul", "div", "div", "mod", "modw", "sdivw", "smodw", "expw", "mix", "st", "len", "word0"])
+            form = rng.choice(["eq", "eq", "gt", "lt", "sum", "and", "mul", "div", "div", "mod", "modw", "sdivw", "smodw", "expw", "mix", "st", "len", "word0", "addmodw", "mulmodw"])
             wv = words[i]
             if form == "eq":
                 atoms.append(["eq", i, wv])
@@ -252,6 +262,12 @@ def test_st():
                     atoms += [["eq", j, 0]]
             elif form == "expw" and i != j and allow_exp:
                 atoms.append(["expw", i, j, pow(wv, words[j], 1 << 256)])
+            elif form in ("addmodw", "mulmodw"):
+                k3 = rng.randrange(nwords)
+                x, y, m = wv, words[j], words[k3]
+                atoms.append([form, i, j, k3, 0 if m == 0 else ((x + y) % m if form == "addmodw" else (x * y) % m)])
+                if m == 0:
+                    atoms += [["eq", k3, 0]]
             elif form == "mix":
                 kk = rng.getrandbits(256) | 1
                 atoms.append(["mix", i, kk, ((wv * kk) & M256) ^ (wv >> 7)])
@@ -272,7 +288,7 @@ def test_st():
             atoms.append(["eq", 0, words[0]])
         if not reach:
             i = rng.randrange(nwords)
-            c = contra % 6
+            c = contra % 8
             j2 = (i + 1) % nwords
             if c == 4 and nwords >= 2:
                 # true under SMT-LIB semantics (x % 0 = x), false on the EVM (x % 0 = 0)
@@ -281,6 +297,11 @@ def test_st():
             elif c == 5 and nwords >= 2:
                 v = words[i] or 7
                 atoms += [["eq", j2, 0], ["eq", i, v], ["div", i, j2, M256]]
+            elif c in (6, 7) and nwords >= 2:
+                # modulus 0: the EVM result is 0, the SMT-LIB remainder is the (wide) dividend
+                # (the planted value is reachable under the SMT-LIB reading: x + x = 2r, x * x = r^2)
+                r_ = words[i] % 30 + 2
+                atoms += [["eq", j2, 0], ["addmodw", i, i, j2, 2 * r_] if c == 6 else ["mulmodw", i, i, j2, r_ * r_]]
             elif c == 0:
                 atoms += [["eq", i, words[i]], ["eq", i, (words[i] + 1) & M256]]
             elif c == 1:
@@ -295,7 +316,7 @@ def test_st():
 
     return st.builds(
         mk, st.integers(1, 4), st.lists(st.sampled_from(["bytes", "uint256[]"]), max_size=2), st.integers(0, 1 << 30), st.sampled_from([True, True, False]),
-        st.sampled_from(["panic", "panic", "failflag", "vmassert", "vmassert_cond", "vmassert_cond", "nested", "panic_other"]), st.integers(1, 4), st.integers(0, 5), st.sampled_from([0x11, 0x12, 0x32, 0x41]),
+        st.sampled_from(["panic", "panic", "failflag", "vmassert", "vmassert_cond", "vmassert_cond", "nested", "panic_other"]), st.integers(1, 4), st.integers(0, 7), st.sampled_from([0x11, 0x12, 0x32, 0x41]),
     )
 
 
